@@ -10,6 +10,7 @@ It reads, from /repo's current working tree,
   core/src/draw_target/mod.rs                                       `trait DrawTarget`: default `fill_contiguous`, `fill_solid`, `clear`
   core/src/geometry/mod.rs                                          `impl<T: OriginDimensions> Dimensions for T` (`Cropped`'s box)
   src/iterator/mod.rs, src/iterator/pixel.rs                        `PixelIteratorExt::translated`, `pixel::Translated::{new, next}`
+  src/iterator/contiguous.rs                                        `Cropped::{new, next}` (the colour iterator of `Clipped::fill_contiguous`)
 and writes EG/Generated/AdaptSrc.lean: one Lean `def` per Rust function, mirroring the Rust text.
 
 What a translated method IS. The adapter methods are generic over the parent `T: DrawTarget` and return
@@ -32,8 +33,11 @@ no `let _ = ..` / `let r = ..` binding) so the parent's `Result` IS the method's
 Everything semantic lives in the hand-written prelude EG/Model/AdaptSrcPrelude.lean (iterators = the finite list of
 their items, `Rectangle`'s methods = the hand model's, `core::iter::repeat` = explicit fuel). Iterator adapters
 defined in the crate (`pixel::Translated`) are recognised by the shape of their `next`
-(`self.iter.next().map(F)`), the item function `F` is translated. `iterator::contiguous::Cropped::new` is a
-prelude primitive (the hand model EG/Model/CroppedIter.lean; its `next` is not regenerated).
+(`self.iter.next().map(F)`), the item function `F` is translated. The colour iterator of `Clipped::fill_contiguous`,
+`iterator::contiguous::Cropped` (src/iterator/contiguous.rs), is translated STATEFULLY: `new` (with its `mut iter`
+parameter) and `Iterator::next(&mut self)` become functions that rebind `iter` / return (value, updated self); field
+assignments, `iter.nth(k);`, `self.iter.next()`, early `return` and statement-position `if` are handled by copying the
+continuation into the arms (`st_seq`). Where such an iterator is passed on it is collected on explicit `fuel`.
 
 REUSES tools/tr_rect.py: tokenizer, `Cursor`, `parse_type`, `parse_fn`, `BodyParser` (subclassed for pattern
 closure parameters and `?`; tr_rect's module-level name `BodyParser` is rebound to the subclass only while this
@@ -652,13 +656,13 @@ class AdaptTranslator:
         where = f"{ctx['where']}: line {e[1]}"
         if e[3] == "next":
             self.args(e[5], [], env, ctx, ind, where)
-            return pl, f"(iter_next {pl[2]})", ("Option", pl[3][1])
+            return pl, f"(listiter_next {pl[2]})", ("Option", pl[3][1])
         if len(e[5]) != 1:
             raise TrError(f"{where}: `nth` with {len(e[5])} arguments")
         ntxt, nt = self.expr(e[5][0], env, ctx, ind, want="usize")
         if nt != "usize":
             raise TrError(f"{where}: `nth` of a value of type {nt}")
-        return pl, f"(iter_nth {pl[2]} {ntxt})", ("Option", pl[3][1])
+        return pl, f"(listiter_nth {pl[2]} {ntxt})", ("Option", pl[3][1])
 
     def st_rebind(self, pl, pair_snd, env):
         if pl[0] == "local":
@@ -1050,7 +1054,7 @@ class AdaptTranslator:
             return f"(Rectangle_new {a[0]} {a[1]})", "Rectangle"
         if segs == ["Point", "zero"]:
             self.args(args, [], env, ctx, ind, where)
-            return "Point_zero", "Point"
+            return "point_zero", "Point"
         if segs == ["core", "iter", "repeat"]:
             a = self.args(args, ["Color"], env, ctx, ind, where)
             ctx["fuel"] = True
@@ -1173,12 +1177,13 @@ HEADER = """/-
   EG.Generated.AdaptSrc — GENERATED by tools/tr_adapt.py from /repo's current sources. Do not edit.
 
   One `def` per Rust function of the four draw-target adapters (src/draw_target/*.rs), of the `DrawTarget` trait's
-  default methods (core/src/draw_target/mod.rs) and of the pixel iterator adapter they use, mirroring the Rust text.
+  default methods (core/src/draw_target/mod.rs) and of the pixel / colour iterators they use (`pixel::Translated`,
+  `iterator::contiguous::Cropped`), mirroring the Rust text.
   A `Result`-returning method is the parent call it makes (a value of `EG.Call`); `adapterMethodShapes` records for
   each of them that the call is the tail expression and that nothing is applied to its `Result`. Every Rust
   primitive is a function of the hand-written prelude EG/Model/AdaptSrcPrelude.lean. The theorems
-  `<name>_src_eq_model` of EG/Props/C03/GeneratedAdapters.lean prove these definitions equal to the hand model
-  EG/Model/Adapters.lean / Target.lean for all inputs.
+  `<name>_src_eq_model` of EG/Props/C03/GeneratedAdapters.lean / GeneratedCroppedIter.lean prove these definitions equal
+  to the hand model EG/Model/Adapters.lean / Target.lean / CroppedIter.lean for all inputs.
 -/
 import EG.Model.AdaptSrcPrelude
 set_option linter.unusedVariables false
